@@ -302,6 +302,7 @@ func init() {
 		}
 		// succession
 		c02SuccessionFirst(c, "succession")
+		c06RevertOnStoreStream(c)
 	})
 }
 
@@ -427,5 +428,66 @@ func c02SuccessionFirst(c *Ctx, rule string) {
 		}
 	} else {
 		c.und(rule, "verifyBlockSuccession", "", "anchor not found")
+	}
+}
+
+// c06RevertOnStoreStream: reverts are serialised with stores. revertTask is entered only from storeTask (which runs as a
+// callback of the verifier stream) or from a callback handed to that stream with Go — never directly from the fetcher's
+// callback, where it would run concurrently with the tail of the store of the same block (reorg{N} before newHead(N), and
+// unsynchronised access to the reorg bookkeeping).
+func c06RevertOnStoreStream(c *Ctx) {
+	p := c.P
+	rt := p.Func("sync", "Synchronizer", "revertTask")
+	if rt == nil {
+		c.und("revert-on-store-stream", "Synchronizer.revertTask", "", "anchor not found")
+		return
+	}
+	var passed func(g *ssa.Function, depth int) bool
+	passed = func(g *ssa.Function, depth int) bool {
+		par := g.Parent()
+		if par == nil || depth > 4 {
+			return false
+		}
+		ok := false
+		allInstrs(par, func(in ssa.Instruction) {
+			mc, isMc := in.(*ssa.MakeClosure)
+			if !isMc || mc.Fn != ssa.Value(g) {
+				return
+			}
+			var follow func(v ssa.Value, d int)
+			follow = func(v ssa.Value, d int) {
+				if d > 3 || v.Referrers() == nil {
+					return
+				}
+				for _, r := range *v.Referrers() {
+					switch x := r.(type) {
+					case ssa.CallInstruction:
+						if f := x.Common().StaticCallee(); f != nil && strings.HasSuffix(qname(f), "stream.Stream).Go") {
+							ok = true
+						}
+					case *ssa.Return:
+						if passed(par, depth+1) {
+							ok = true
+						}
+					case *ssa.MakeInterface:
+						follow(x, d+1)
+					case *ssa.ChangeType:
+						follow(x, d+1)
+					}
+				}
+			}
+			follow(mc, 0)
+		})
+		return ok
+	}
+	n := 0
+	for _, s := range p.callersOf(rt) {
+		fn := s.Instr.Parent()
+		n++
+		ok := rootOf(fn).Name() == "storeTask" || passed(fn, 0)
+		c.check(ok, "revert-on-store-stream", "revertTask ← "+qname(fn), p.Pos(s.Pos()), "called from storeTask or from a callback handed to the verifier stream", "revertTask is called directly from "+qname(fn)+", outside the stream that serialises stores: the revert can overtake the store of the same block (reorg notification before the new-head notification of a block that is already reverted; unsynchronised reorg bookkeeping)")
+	}
+	if n < 2 {
+		c.und("revert-on-store-stream", "revertTask callers", "", fmt.Sprintf("only %d callers found", n))
 	}
 }
